@@ -116,6 +116,8 @@ pub struct ResolvedView {
     pub port: u16,
     pub addrs: Vec<AddrView>,
     pub txt: Vec<(String, Option<Vec<u8>>)>,
+    /// keys whose case-insensitive look-up did not return the property (C16)
+    pub lookup_mismatch: Vec<String>,
 }
 
 #[derive(Clone, Debug, PartialEq, Eq, Serialize)]
